@@ -167,6 +167,25 @@ fn unknown_command_line() -> BoxedStrategy<Vec<u8>> {
     .boxed()
 }
 
+/// a supported command word with one more byte glued on (a letter, a digit, NUL, a high byte):
+/// unknown commands, every one of them
+fn extended_command_line() -> BoxedStrategy<Vec<u8>> {
+    (0usize..COMMANDS.len(), prop::sample::select(vec![b's', b'x', b'e', b'd', b'1', b'_', 0u8, 0xf8, 0xc3, b'@', b'-']), prop::option::of(arg_bytes()), any::<bool>())
+        .prop_map(|(i, extra, arg, twice)| {
+            let mut v = COMMANDS[i].as_bytes().to_vec();
+            v.push(extra);
+            if twice {
+                v.push(extra);
+            }
+            if let Some(a) = arg {
+                v.push(b' ');
+                v.extend_from_slice(&a);
+            }
+            v
+        })
+        .boxed()
+}
+
 fn blank_line() -> BoxedStrategy<Vec<u8>> {
     prop_oneof![
         12 => prop::sample::select(vec!["", "", " ", "\t", "  \t ", "\r", " \x0b"]).prop_map(|s| s.as_bytes().to_vec()),
@@ -182,6 +201,7 @@ fn line(err_weight: u32) -> BoxedStrategy<Vec<u8>> {
         25 => valid_command_line(),
         err_weight => command_line(),
         err_weight / 2 + 1 => unknown_command_line(),
+        err_weight / 3 + 1 => extended_command_line(),
         15 => blank_line(),
         2 => prop::collection::vec(any::<u8>(), 0..24),
     ]
